@@ -567,6 +567,10 @@ def origins(prog, f, local, scope=None, call_filter=None, max_frames=6, _seen=No
     dep, calls, consts = f.depends_on(local, call_filter=cf)
     calls = [c for c in calls if c.name != "from_residual"]
     out.calls.extend(calls)
+    # closures passed along (e.g. `.and_then(|r| r.field)`): the value also depends on what the closure returns
+    for bb, c in consts:
+        if isinstance(c, dict) and c.get("closure") and c["closure"] in prog.fns:
+            origins(prog, prog.fns[c["closure"]], 0, scope, call_filter, max_frames - 1, seen, out)
     # return-value summaries: a workspace callee's result depends on what its body returns
     for c in calls:
         if call_filter is not None and not call_filter(c):
